@@ -3,6 +3,7 @@ CONSTANTS
   Part = "c19"
   MaxLinesA = 1
   MaxLinesB = 1
+  KF_ScanRecheckLeak = FALSE
   KF_FindUnitRelock = FALSE
   MaxOps = 4
   ExportOps = 3
